@@ -31,6 +31,7 @@ import (
 // APIStats is what the apiload child reports.
 type APIStats struct {
 	Workers      int                       `json:"workers"`
+	Aborted      int                       `json:"aborted_requests"`
 	Calls        map[string]int            `json:"calls"`      // per method
 	RPCErrors    map[string]map[string]int `json:"rpc_errors"` // per method, per "code message"
 	HTTPFailures int                       `json:"http_failures"`
@@ -59,9 +60,35 @@ type SyncStatusRecord struct {
 // committed, without ever reading Pegnetd.Sync (so the harness itself adds no
 // data race to a -race run).
 func syncNoPeek(n *node.Pegnetd, fc *chain.FakeChain, rd *CommittedReader, tip uint32, timeout time.Duration) error {
-	fc.SetTip(tip)
+	return syncStepped(n, fc, rd, tip, timeout, 0)
+}
+
+// syncStepped is syncNoPeek with the chain tip advancing one block at a time: after the node has
+// committed the current tip the next block appears only `dwell` later, as on a live network where
+// the node idles between blocks and API requests arrive in between.
+func syncStepped(n *node.Pegnetd, fc *chain.FakeChain, rd *CommittedReader, tip uint32, timeout time.Duration, dwell time.Duration) error {
 	ctx, cancel := context.WithCancel(context.Background())
 	defer cancel()
+	if dwell <= 0 {
+		fc.SetTip(tip)
+	} else {
+		go func() {
+			cm, _ := rd.Committed()
+			for h := cm + 1; h <= tip; h++ {
+				fc.SetTip(h)
+				for {
+					if ctx.Err() != nil {
+						return
+					}
+					if c, err := rd.Committed(); err == nil && c >= h {
+						break
+					}
+					time.Sleep(300 * time.Microsecond)
+				}
+				time.Sleep(dwell)
+			}
+		}()
+	}
 	done := make(chan error, 1)
 	go func() {
 		defer func() {
@@ -154,6 +181,7 @@ func childAPILoad(job *Job, res *Result) error {
 	var mu sync.Mutex // stats + record file
 	t0 := time.Now()
 
+	apiAddr := ""
 	if job.Workers > 0 {
 		addr, err := freePort()
 		if err != nil {
@@ -162,6 +190,7 @@ func childAPILoad(job *Job, res *Result) error {
 		// exactly what cmd/root.go does: srv.NewAPIServer(conf, node).Start(stop)
 		n.Config.Set(config.APIListen, addr)
 		srvDone := srv.NewAPIServer(n.Config, n).Start(stopSrv)
+		apiAddr = addr
 		url := "http://" + addr + "/v1"
 		up := false
 		for i := 0; i < 500; i++ {
@@ -259,8 +288,52 @@ func childAPILoad(job *Job, res *Result) error {
 		}
 	}
 
+	// clients that hang up: a rich-list request is written and the connection closed at once (or a
+	// few hundred microseconds later), so the handler runs with a request context that is cancelled
+	// before or while it reads the database.  Whatever the handler leaves behind in the node's
+	// memory (the average cache) must not reach the ledger.
+	if job.Workers > 0 && job.Mix != "norich" && job.Mix != "status" && apiAddr != "" {
+		for a := 0; a < 2; a++ {
+			wg.Add(1)
+			go func(a int) {
+				defer wg.Done()
+				rng := rand.New(rand.NewSource(job.Seed*7777 + int64(a)))
+				for i := 0; atomic.LoadInt32(&stop) == 0; i++ {
+					var body []byte
+					if i%2 == 0 {
+						body, _ = json.Marshal(map[string]interface{}{"jsonrpc": "2.0", "id": 1, "method": "get-rich-list",
+							"params": map[string]interface{}{"asset": apiAssets[rng.Intn(len(apiAssets))], "count": 10}})
+					} else {
+						body, _ = json.Marshal(map[string]interface{}{"jsonrpc": "2.0", "id": 1, "method": "get-global-rich-list",
+							"params": map[string]interface{}{"count": 10}})
+					}
+					c, err := net.DialTimeout("tcp", apiAddr, time.Second)
+					if err != nil {
+						time.Sleep(time.Millisecond)
+						continue
+					}
+					fmt.Fprintf(c, "POST /v1 HTTP/1.1\r\nHost: %s\r\nContent-Type: application/json\r\nContent-Length: %d\r\n\r\n%s", apiAddr, len(body), body)
+					if d := rng.Intn(4); d > 0 {
+						time.Sleep(time.Duration(rng.Intn(400)) * time.Microsecond)
+					}
+					c.Close()
+					mu.Lock()
+					stats.Aborted++
+					mu.Unlock()
+					// open loop: the handler of an aborted request still runs to its end, so the rate is
+					// kept low enough for the node to keep up (about 100 requests a second in all)
+					time.Sleep(time.Duration(10+rng.Intn(20)) * time.Millisecond)
+				}
+			}(a)
+		}
+	}
+
 	syncStart := time.Now()
-	serr := syncNoPeek(n, sc.FC, rd, sc.Last, job.timeout())
+	var dwell time.Duration
+	if job.Workers > 0 {
+		dwell = 4 * time.Millisecond
+	}
+	serr := syncStepped(n, sc.FC, rd, sc.Last, job.timeout(), dwell)
 	stats.SyncMs = time.Since(syncStart).Milliseconds()
 	atomic.StoreInt32(&stop, 1)
 	wg.Wait()
